@@ -131,7 +131,7 @@ func genTransparencyScenario(t *rapid.T) *Case {
 			callees = append(callees, i)
 		}
 	}
-	g := &mixGen{rpc: newRPCGen(n, false, "C02", callers, callees), nsess: n, profile: "C18", alive: make([]bool, n), ps: &psGen{nsess: n}}
+	g := &mixGen{rpc: newRPCGen(n, false, "deterministic", callers, callees), nsess: n, profile: "C18", alive: make([]bool, n), ps: &psGen{nsess: n}}
 	c.Ops = append(c.Ops, Op{K: "subscribe", S: 0, URI: "a.b"})
 	ops := rapid.SliceOfN(rapid.Custom(func(t *rapid.T) Op {
 		if pct(t, 12, "hist") {
@@ -667,14 +667,22 @@ func seqOf(ms []wamp.Message) string {
 
 type recordOracle struct {
 	baseOracle
-	steps []map[int][]wamp.Message
+	steps   []map[int][]wamp.Message
+	sent    [][]sentRec
+	stepOps [][]int
 }
 
 func (r *recordOracle) OnStep(e *Engine, st *StepRec) *Violation {
 	if st.Phase == "drop" || st.Phase == "close" {
 		return nil
 	}
-	r.steps = append(r.steps, st.Recv)
+	recv := st.Recv
+	if recv == nil {
+		recv = map[int][]wamp.Message{}
+	}
+	r.steps = append(r.steps, recv)
+	r.sent = append(r.sent, st.Sent)
+	r.stepOps = append(r.stepOps, st.OpIdx)
 	return nil
 }
 
@@ -759,6 +767,13 @@ func canonTrace(steps []map[int][]wamp.Message, nsess int) []string {
 					// stored events arrive as Go structs in-process and as maps when serialised
 					inMetaList = true
 					line = fmt.Sprintf("RESULT %v %s %s %s", rename(Canon(x.Request)), Show(rename(Canon(x.Details))), Show(rename(canonStored(x.Arguments))), Show(rename(Canon(x.ArgumentsKw))))
+				case *wamp.Event:
+					// publication ids are random and, for the meta events of one
+					// departure, assigned in map-iteration order: renaming by first
+					// appearance would differ between two runs. C01 owns their consistency.
+					cp := *x
+					cp.Publication = 0
+					line = msgCanonLine(&cp, rename)
 				default:
 					line = msgCanonLine(m, rename)
 				}
